@@ -151,7 +151,27 @@ pub fn gen_hist(rng: &mut Rng, max_steps: usize, with_delete_all: bool) -> Hist 
         steps.insert(steps.len() / 2, Step::Commit);
     }
     steps.push(Step::Commit);
-    Hist { threads, merge_policy, cut_docs, steps }
+    // A delete must not be the first stamped operation of a fresh writer (after open, rollback,
+    // delete_all): `Stamper::new(committed_opstamp)` gives it the opstamp of the last commit and
+    // a merge of committed segments (target = that opstamp) then applies and persists the
+    // uncommitted delete — a C02/C04 defect reported separately; these generators stay clear of
+    // it so that a content difference here means storage, not that.
+    let mut fresh = true;
+    let mut out = Vec::with_capacity(steps.len() + 4);
+    for s in steps {
+        match s {
+            Step::DelGrp(_) if fresh => {
+                out.push(Step::Add(next_id));
+                next_id += 1;
+                fresh = false;
+            }
+            Step::Add(_) | Step::Commit => fresh = false,
+            Step::Rollback | Step::Reopen { .. } | Step::DeleteAll => fresh = true,
+            _ => {}
+        }
+        out.push(s);
+    }
+    Hist { threads, merge_policy, cut_docs, steps: out }
 }
 
 pub struct Fields {
